@@ -484,6 +484,42 @@ func c18Run(c *fw.Case, part, parts int) {
 			c18Check(c, s, set)
 		}
 	}
+	// PRNG: list entries whose key values resemble each other (letter case, leading zeros, prefixes, separators):
+	// "identified by their full key sets" means byte-for-byte
+	kr := c.Rng.Fork("keyvariants")
+	pool := []string{"eth1", "Eth1", "ETH1", "eth10", "eth", "01", "1", "1.0", "10", "true", "True", "TRUE", "a-b", "a_b", "ab", "x", "X"}
+	for k := 0; k < 300 && !c.Violated(); k++ {
+		var set []c18Entry
+		seen := map[string]bool{}
+		add := func(ps string, v refmodel.Val, del bool) {
+			if !seen[ps] {
+				seen[ps] = true
+				set = append(set, c18Entry{p: refmodel.MustParse(ps), val: v, deleted: del})
+			}
+		}
+		a := pool[kr.Intn(len(pool))]
+		for n := 2 + kr.Intn(3); n > 0; n-- {
+			b := pool[kr.Intn(len(pool))]
+			if kr.Chance(1, 2) {
+				b = a // the same entry again: its leaves must stay in one entry
+			}
+			switch kr.Intn(4) {
+			case 0:
+				add(fmt.Sprintf("/c/l[k=%s]/v", b), refmodel.S("v"+b), kr.Chance(1, 6))
+			case 1:
+				add(fmt.Sprintf("/c/l[k=%s]/n", b), refmodel.U(uint64(len(b))), false)
+			case 2:
+				add(fmt.Sprintf("/c/m[k1=%s][k2=%s]/v", a, b), refmodel.S("m"+a+b), kr.Chance(1, 6))
+			case 3:
+				add(fmt.Sprintf("/c/l[k=%s]/sub/x", b), refmodel.S("s"+b), false)
+			}
+		}
+		if kr.Chance(1, 5) {
+			add(fmt.Sprintf("/c/l[k=%s]", a), "", true)
+		}
+		c.Count("key_variant_sets", 1)
+		c18Check(c, s, set)
+	}
 	c.Class(fmt.Sprintf("part %d/%d", part, parts))
 	c.Distinct("part", fmt.Sprintf("%d:%d", part, count))
 	ex := []*configapi.PathValue{{Path: "/c/l[k=1]/v", Value: *configapi.NewTypedValueString("3")}, {Path: "/c/l[k=10]/v", Value: *configapi.NewTypedValueString("4")}, {Path: "/c/l[k=1]", Deleted: true}}
@@ -495,10 +531,10 @@ func init() {
 	const parts = 10
 	fw.Register(&fw.Check{ID: "C18", Level: "exploration", Exhaustive: true,
 		Technique:   "runtime monitoring of the pure tree helpers (v2 and v3), exhaustive small scope: every set of <= 4 entries from a 23-path universe (nested and two-key lists, numeric / boolean-looking keys, keys that are prefixes of each other, sibling names sharing prefixes, explicit key leaf) in every value / tombstone state; BuildTree document flattened by an independent schema-driven flattener == live leaves; PrunePathValues in both modes == reference",
-		Rule:        "cases partition the subsets by smallest element; each case adds 300 PRNG sets of ~10 entries; distinct_nontrivial = parts executed",
+		Rule:        "cases partition the subsets by smallest element; each case adds 300 PRNG sets of ~10 entries and 300 PRNG sets of list entries whose key values resemble each other (letter case, leading zeros, prefixes, separators); distinct_nontrivial = parts executed",
 		Assumptions: []string{"a key leaf that a document shows only because it identifies its entry is implied, not an extra leaf; an explicit key leaf must agree with its entry"},
 		DistinctSet: "part",
-		Floors:      map[string]int64{"sets": 30000, "large_sets": 2500},
+		Floors:      map[string]int64{"sets": 30000, "large_sets": 2500, "key_variant_sets": 2500},
 		Cases:       func(tier string) int { return parts },
 		Run:         func(c *fw.Case) { c18Run(c, c.Index, parts) }})
 }
